@@ -37,18 +37,21 @@ theorem c13_nothing_watched (s : Stack) (tid : Tid) (t : TaskSt) (hpc : t.pc = .
 /-- STOPS WHEN FOUND: a round that finds nothing to ask for sends nothing and ends the task for good -/
 theorem c13_stops_when_found (s : Stack) (tid : Tid) (t : TaskSt) (k : Nat) (hpc : t.pc = .initial ∨ t.pc = .rep k)
     (hc : t.cancelled = false) (he : s.findEntries = []) :
-    s.stepFind tid t = s.finish tid t := by
-  rcases hpc with h | h <;> simp [stepFind, h, hc, he]
+    s.stepFind tid t = (s.markFind tid.2).finish tid t := by
+  have he' : (s.markFind tid.2).findEntries = [] := he
+  rcases hpc with h | h <;> simp [stepFind, h, hc, he']
 
 /-- a round with something to ask sends ONE message, to the multicast group, with exactly those entries -/
 theorem c13_round (s : Stack) (tid : Tid) (t : TaskSt) (hpc : t.pc = .initial) (hc : t.cancelled = false)
     (he : s.findEntries ≠ []) :
-    ∃ s', s' = ({ s with findLog := s.findLog ++ [(tid.2, 0)] } : Stack).sendSd s.findEntries none ∧
+    ∃ s', s' = ({ (s.markFind tid.2) with findLog := s.findLog ++ [(tid.2, 0)] } : Stack).sendSd s.findEntries none ∧
       s.stepFind tid t = (if 0 < s'.tm.repetitionsMax then s'.sleepFor tid t (pow2 0 * s'.tm.repetitionsBaseDelay) (.rep 0)
                            else s'.finish tid t) := by
   refine ⟨_, rfl, ?_⟩
-  have : ¬ (s.findEntries.isEmpty = true) := by simpa using he
+  have : ¬ ((s.markFind tid.2).findEntries.isEmpty = true) := by
+    show ¬ (s.findEntries.isEmpty = true); simpa using he
   simp [stepFind, hpc, hc, this]
+  rfl
 
 /-- TIMES / BOUND: round i+1 follows round i after base * 2^i, and after REPETITIONS_MAX repetitions the
 task ends: at most 1 + REPETITIONS_MAX messages per start -/
@@ -56,10 +59,12 @@ theorem c13_next_round (s : Stack) (tid : Tid) (t : TaskSt) (k : Nat) (hpc : t.p
     (he : s.findEntries ≠ []) :
     s.stepFind tid t =
       (if k + 1 < s.tm.repetitionsMax then
-         (({ s with findLog := s.findLog ++ [(tid.2, k + 1)] } : Stack).sendSd s.findEntries none).sleepFor tid t (pow2 (k + 1) * s.tm.repetitionsBaseDelay) (.rep (k + 1))
-       else (({ s with findLog := s.findLog ++ [(tid.2, k + 1)] } : Stack).sendSd s.findEntries none).finish tid t) := by
-  have : ¬ (s.findEntries.isEmpty = true) := by simpa using he
+         (({ (s.markFind tid.2) with findLog := s.findLog ++ [(tid.2, k + 1)] } : Stack).sendSd s.findEntries none).sleepFor tid t (pow2 (k + 1) * s.tm.repetitionsBaseDelay) (.rep (k + 1))
+       else (({ (s.markFind tid.2) with findLog := s.findLog ++ [(tid.2, k + 1)] } : Stack).sendSd s.findEntries none).finish tid t) := by
+  have : ¬ ((s.markFind tid.2).findEntries.isEmpty = true) := by
+    show ¬ (s.findEntries.isEmpty = true); simpa using he
   simp [stepFind, hpc, hc, this]
+  rfl
 
 /-- a cancelled find task never sends -/
 theorem c13_cancelled_silent (s : Stack) (tid : Tid) (t : TaskSt) (hc : t.cancelled = true) :
